@@ -75,7 +75,7 @@ def replay(ctx, path):
 def selftest(ctx):
     """Demonstrate the binding: corrupt one expected span in emitted records; the harness must flag it."""
     r = ctx.tlc("Emphasis", cfg(A5, 4), name="Emphasis_self")
-    lines = open(r["out"]).read().splitlines()
+    lines = open(r["out"]).read().split("\n")
     out = []
     corrupted = 0
     for ln in lines:
